@@ -278,7 +278,7 @@ def replay(ctx, payload):
 
 
 LEVEL_TEXT = ('Machine-checked over a model of the scanner (derivative-based longest-match / first-rule matcher over the rule list regenerated from '
-              'clex.l, with the comment action proved to stop at the first closer) and of driver.c: every run exits with 51 or 71 and, with '
+              'clex.l — the matcher is proved to decide the textbook relational semantics of the patterns, and rule selection is stated against it — with the comment action proved to stop at the first closer) and of driver.c: every run exits with 51 or 71 and, with '
               'define / replace_macro modelled at index level, never reads outside the token array (after fix 47ede41); the lexemes '
               'partition the input and print mode outputs the input minus continuation and block-comment lexemes; rm-toks-N produces output '
               'iff idx < number of non-blank tokens and keeps exactly the non-blank tokens of rank outside idx..idx+N-1, as a subsequence; '
